@@ -74,4 +74,6 @@ CANARIES = [
          edits=[('crates/anemo/src/network/mod.rs', """                addr, peer_id, sender,""", """                addr, None, sender,""")]),
     dict(id='ap-is-closed-never', unit=U, what='a network never reports closed', expect=['NetworkInner::is_closed::mailbox_closed'],
          edits=[('crates/anemo/src/network/mod.rs', """        self.connection_manager_handle.is_closed()""", """        self.connection_manager_handle.is_closed() && false""")]),
+    dict(id='ap-public-dial-forgets-identity', unit=U, what='the public dial-with-identity call does not pass the identity on', expect=['Network::connect_with_peer_id::asks_for_exactly_that_identity'],
+         edits=[('crates/anemo/src/network/mod.rs', "        self.0.connect(addr.into(), Some(peer_id)).await", "        let _ = peer_id;\n        self.0.connect(addr.into(), None).await")]),
 ]
